@@ -402,7 +402,7 @@ func TestVerifC19Client(t *testing.T) {
 	}
 	r.Bounds["configurations"] = "4 server key types x 4 client key types x 2 hostnames x 4 flows (client-initiated, server-initiated after the server ignored the client's challenge, server-initiated after a rejected token, token reuse)"
 	if !vrep.Thorough() {
-		r.Bounds["configurations_quick_tier"] = "as above, but an RSA server only with the Ed25519 client (13 of the 16 key-type pairs)"
+		r.Bounds["configurations_quick_tier"] = "as above, but only the 7 key-type pairs in which the server or the client is Ed25519"
 	}
 	r.Bounds["faults_per_execution"] = 1
 	r.Bounds["xor_masks"] = fmt.Sprintf("%#02x", masks)
@@ -410,8 +410,8 @@ func TestVerifC19Client(t *testing.T) {
 	var generated int64
 	for _, skt := range c19KeyTypes {
 		for _, ckt := range c19KeyTypes {
-			if skt == "rsa" && ckt != "ed25519" && !vrep.Thorough() && only == nil {
-				continue // quick tier: an RSA server costs ~1.5 ms per execution; one client key type there
+			if skt != "ed25519" && ckt != "ed25519" && !vrep.Thorough() && only == nil {
+				continue // quick tier: every key type as server and as client, paired with Ed25519 (7 of the 16 pairs)
 			}
 			for host := 0; host < 2; host++ {
 				cfg := c19CliCfg{skt, ckt, host}
